@@ -556,13 +556,18 @@ class C15Reset(Monitor):
             if not dst:
                 pristine = False
                 continue
+            out = w.g('log', '--format=%H %an', '%s..%s' %
+                      (heads[dst], heads[wn]), cwd=w.remote)
+            # shape of the integration branch: with no robot commit on it,
+            # it is a plain fast-forward of the source branch (destination
+            # not ahead of the source's base) - see known finding K1
+            ff = not any(line.split(' ', 1)[1] == ROBOT
+                         for line in out.splitlines())
             for sha, info in sorted(w.manual_commits.items()):
                 if info['on'] == wn and \
                         w.is_ancestor(sha, heads[wn]) and \
                         not w.is_ancestor(sha, heads[dst]):
-                    lossy.append((sha, info['kind'], wn))
-            out = w.g('log', '--format=%H %an', '%s..%s' %
-                      (heads[dst], heads[wn]), cwd=w.remote)
+                    lossy.append((sha, info['kind'], wn, ff))
             for line in out.splitlines():
                 sha, author = line.split(' ', 1)
                 if author == ROBOT:
@@ -607,7 +612,11 @@ class C15Reset(Monitor):
                    if a == 'berte' and ref.startswith(H)]
         hist.count('c15_' + cmd)
         hist.flags.add('c15_reset_seen')
-        kinds = sorted(set(k for _, k, _ in pre['lossy']))
+        kinds = sorted(set(l[1] for l in pre['lossy']))
+        # the manual work sits on integration branches that carry no robot
+        # commit at all (every one of them a fast-forward of the source)
+        shape = 'no_robot_commit' if pre['lossy'] and all(
+            l[3] for l in pre['lossy']) else 'with_robot_commit'
         if pre['lossy']:
             hist.count('c15_with_manual_work')
             hist.flags.add('c15_manual')
@@ -615,10 +624,10 @@ class C15Reset(Monitor):
             if pre['lossy'] and res.status != 'LossyResetWarning':
                 out.append((
                     'C15: reset completed and discarded manual work on PR '
-                    '#%d: %s' % (pre['pid'], [(s[:10], k, wn) for s, k, wn in
-                                              pre['lossy']]),
+                    '#%d: %s' % (pre['pid'], [(l[0][:10], l[1], l[2])
+                                              for l in pre['lossy']]),
                     {'monitor': 'C15', 'clause': 'lossy_reset_not_refused',
-                     'manual_kinds': '+'.join(kinds)}))
+                     'manual_kinds': '+'.join(kinds), 'w_shape': shape}))
             elif not pre['lossy'] and pre['pristine'] and \
                     res.status != 'ResetComplete':
                 out.append((
